@@ -105,10 +105,8 @@ func (s *scanner) ScanToken() (Object, error) {
 			s.SkipByte()
 			return Operator(">>"), nil
 		default:
-			if len(bb) < 2 {
-				// no second byte could be read: report why
-				return nil, s.err
-			}
+			// A lone '>' is never valid, whatever follows it (another byte, the
+			// end of the input, or a byte that could not be read or decoded).
 			return nil, &postScriptError{eSyntaxerror, "unexpected '>'"}
 		}
 	case '/':
